@@ -221,6 +221,32 @@ func gen(g *zv.Gen) {
 		g.Emitf("c26 fin13 %d %s %s", s, zv.Hex(rbytes(r)), zv.Hex(r.Bytes(r.Intn(150))))
 		g.Emitf("c26 ekm13 %d %s %s %s %s %d", s, zv.Hex(rbytes(r)), zv.Hex(r.Bytes(r.Intn(100))), zv.Hex(rlabel(r, labels12)), zv.Hex(r.Bytes(r.Intn(40))), rn()%300)
 	}
+	// 4b. the handshake's wiring: establishKeys with the suite's own lengths (every suite x version), the TLS 1.3
+	// schedule of establishHandshakeKeys (with and without PSK), ticket PSK / binder, application + resumption secrets
+	for _, s := range suites {
+		for _, v := range []int{0x0301, 0x0302, 0x0303, 0x0300} {
+			g.Emitf("c26 keyssuite %d %d %s %s %s", v, s.ID, zv.Hex(r.Bytes(48)), zv.Hex(r.Bytes(32)), zv.Hex(r.Bytes(32)))
+		}
+	}
+	n = g.N(300, 8000)
+	for i := 0; i < n; i++ {
+		s := suites13[r.Intn(len(suites13))]
+		hs := hashSizes[ref13Hash(s)]
+		early := "nil"
+		if r.Chance(50) {
+			early = zv.Hex(r.Bytes(hs))
+		}
+		g.Emitf("c26 hs13 %d %s %s %s", s, early, zv.Hex(r.Bytes([]int{32, 32, 48, 66, 1 + r.Intn(70)}[r.Intn(5)])), zv.Hex(r.Bytes(r.Intn(300))))
+		nl := []int{0, 1, 8, 8, 8, 32, 255, r.Intn(256)}[r.Intn(8)]
+		g.Emitf("c26 psk13 %d %s %s %s", s, zv.Hex(r.Bytes(hs)), zv.Hex(r.Bytes(nl)), zv.Hex(r.Bytes(r.Intn(300))))
+		m1 := r.Bytes(r.Intn(200))
+		g.Emitf("c26 app13 %d %s %s %s", s, zv.Hex(r.Bytes(hs)), zv.Hex(m1), zv.Hex(append(append([]byte{}, m1...), r.Bytes(4+hs)...)))
+	}
+	for _, s := range suites13 { // ticket nonce limit: opaque ticket_nonce<0..255>
+		for _, nl := range []int{254, 255, 256, 300} {
+			g.Emitf("c26 psk13 %d %s %s %s", s, zv.Hex(r.Bytes(32)), zv.Hex(r.Bytes(nl)), zv.Hex(r.Bytes(40)))
+		}
+	}
 	// 5. the derived closures / running hashes used the way a connection uses them: many queries on ONE object
 	genSeq(g, suites, suites13, rn)
 	_ = fmt.Sprint
